@@ -18,6 +18,7 @@ import ast
 
 from engine.interp import (Const, Sym, SymStr, ListV, TupleV, DictV, SetV, ObjV, TypeV, Prim, PartialV, FuncV, NONE, Undecided, Raised, PathLimit, Interp, prov)
 from engine.loader import AnalysisError, ClassInfo
+from engine import roles as _roles
 
 _NODES = ast.parse('class ModelClass:\n    pass\nclass ModelInstance:\n    pass\n').body
 
@@ -58,12 +59,12 @@ class World:
         self.it = Interp(repo, prims, max_paths=16)
         self.it.concrete_context = True
         self.it.concrete_partial = True
-        self.it.concrete_classes = {'PrettyContext', '_CommentedValue', '_TrailingCommentedValue'}
+        self.it.concrete_classes = {'PrettyContext', _roles.name(repo, 'commented_cls'), _roles.name(repo, 'trailing_cls')}
         self.it.foreign_attr = {'pretty_dispatch': lambda it, attr, n: self.live if attr == 'registry' else Prim('pretty_dispatch.' + attr)}
-        self.it.globals_store[(self.m.name, 'pretty_dispatch')] = Prim('pretty_dispatch')
+        self.it.globals_store[(self.m.name, _roles.name(repo, 'dispatch'))] = Prim('pretty_dispatch')
         self.cinfo = ClassInfo(None, _NODES[0])
         self.iinfo = ClassInfo(None, _NODES[1])
-        self.base = self.it.global_name(self.m, '_BASE_DISPATCH')
+        self.base = self.it.global_name(self.m, _roles.name(repo, 'base_dispatch'))
         self.classes = {}
         for kind in KINDS:
             if kind in PYTYPE:
@@ -208,7 +209,7 @@ class World:
         return None
 
     def trailing(self, v, text):
-        return self.it.construct(TypeV('_TrailingCommentedValue'), [v, Const(text)], {}, None)
+        return self.it.construct(TypeV(_roles.name(self.repo, 'trailing_cls')), [v, Const(text)], {}, None)
 
     def _call(self, fname, args, kwargs):
         f = self.m.funcs.get(fname)
@@ -262,7 +263,7 @@ def spec(w, value, warns, depth=None):
     specification is an error reaching the caller"""
     def unwrap(v):
         tc = None
-        while isinstance(v, ObjV) and v.cls.name == '_TrailingCommentedValue':
+        while isinstance(v, ObjV) and v.cls.name == __import__('engine.roles', fromlist=['x']).name(w.repo, 'trailing_cls'):
             tc = v.attrs['comment'].v
             v = v.attrs['value']
         return v, tc
